@@ -173,10 +173,13 @@ private:
       const variable_t &pivot = kv.second;
       Interval res = compute_residual(cst, pivot, env);
       Interval rhs = Interval::top();
+      // whether c * rhs gives res back, i.e., the division was exact
+      bool is_exact_division = false;
       if (!res.is_top()) {
         Interval ic =
             interval_traits::mk_interval<Interval>(c, get_bitwidth(pivot));
         rhs = res / ic;
+        is_exact_division = (rhs * ic == res);
       }
 
       if (cst.is_equality()) {
@@ -200,9 +203,13 @@ private:
       } else if (cst.is_strict_inequality()) {
         // do nothing
       } else {
-        // cst is a disequation
+        // cst is a disequation: c*pivot != res. The quotient is
+        // rounded so it can exclude a value of pivot only if the
+        // division was exact.
         Interval old_i = env.at(pivot);
-        Interval new_i = interval_traits::trim_interval(old_i, rhs);
+        Interval new_i = (is_exact_division
+                              ? interval_traits::trim_interval(old_i, rhs)
+                              : old_i);
         if (new_i.is_bottom()) {
           return true;
         }
